@@ -159,6 +159,36 @@ def seed_names(kind):
     return seed
 
 
+def seed_mixed_policy(w):
+    """a netlist under the EDIF policy (the scenario's) and orphans built under DEFAULT - what a user has after
+    parsing an EDIF file (the reader restores DEFAULT) and creating new elements through the API: a compliant
+    library (definition e: port p, cable c), a definition whose ports carry identifiers equal up to case, a port
+    with an illegal identifier."""
+    s = core.sdn()
+    n = s.Netlist(name="n")
+    lib = n.create_library(name="l")
+    lib["EDIF.identifier"] = "l"
+    d = lib.create_definition(name="d")
+    d["EDIF.identifier"] = "d"
+    pa = d.create_port(name="a")
+    pa["EDIF.identifier"] = "a"
+    s.namespace_manager.default = "DEFAULT"
+    try:
+        ol = s.Library(name="b")
+        e = ol.create_definition(name="e")
+        e.create_port(name="p")
+        e.create_cable(name="c")
+        f = s.Definition(name="f")
+        f.create_port(name="x")["EDIF.identifier"] = "x"
+        f.create_port(name="y")["EDIF.identifier"] = "X"
+        g = s.Port(name="g")
+        g["EDIF.identifier"] = "9lives"
+    finally:
+        s.namespace_manager.default = "EDIF"
+    for o in (n, ol, f, g):
+        w.add(o)
+
+
 def seed_c02_zero(w):
     """no instance yet: two definitions (one with a pin), an orphan port with a pin."""
     s = core.sdn()
